@@ -23,6 +23,21 @@ use zerocopy::transmute;
 mod compressor;
 use crate::compressor::{init1024, init512, of1024, of512, tf1024, tf512};
 
+/// Verification hook (off unless built with `--cfg cryptocorrosion_verif`): lets a deterministic simulator decide
+/// which CPU capability level the one-time run-time detection sees (0 = no override, 1 = SSE2, 2 = SSSE3, 3 = AES-NI).
+/// Must be set before the first hash of the process, because the selection is made once.
+#[cfg(cryptocorrosion_verif)]
+pub mod verif {
+    use core::sync::atomic::{AtomicU8, Ordering};
+    static LEVEL: AtomicU8 = AtomicU8::new(0);
+    pub fn set_level(l: u8) {
+        LEVEL.store(l, Ordering::SeqCst);
+    }
+    pub fn level() -> u8 {
+        LEVEL.load(Ordering::Relaxed)
+    }
+}
+
 #[repr(C, align(16))]
 struct Align16<T>(T);
 
